@@ -425,6 +425,72 @@ class World:
         return (self.cfg, None if b is None else explore._digest(np.round(np.asarray(b, dtype=float), 10).tolist()), min(self.ncalls, 1))
 
 
+def dtype_forms(ctx):
+    """Whole-number function values in an integer dtype, a read-only array, a non-contiguous view and evaluation points in an
+    integer dtype / as float with negative zeros give what the float64 copies give (argument forms, lesson 14)."""
+    for rname, method, ci, rot in (("linear-cc9-r0", "lebedev", 1, 7), ("becke-gc12", "maxdet", 0, 0)):
+        g, rg, centre = build_grid(rname, method, True, ci, rot)
+        n = g.size
+        vi = ((np.arange(n) * 7) % 11 - 5).astype(np.int64)
+        vf = vi.astype(float)
+        ro = vf.copy()
+        ro.setflags(write=False)
+        wide = np.zeros((n, 2))
+        wide[:, 0] = vf
+        pts_i = np.array([[0, 0, 1], [1, -1, 0], [2, 1, 1], [0, 2, -1]])
+        pts_f = pts_i.astype(float) + 0.0
+        forms = {"int64": vi, "int32": vi.astype(np.int32), "read-only": ro, "strided-view": wide[:, 0]}
+        ops = {
+            "integrate": lambda v: np.atleast_1d(g.integrate(v)),
+            "spherical_average": lambda v: g.spherical_average(v)(np.array([0.2, 0.9, 2.0])),
+            "radial_component_splines": lambda v: np.array([sp(np.array([0.3, 1.4])) for sp in g.radial_component_splines(v)[:9]]),
+            "interpolate": lambda v: g.interpolate(v)(pts_f),
+            "interpolate-deriv1": lambda v: g.interpolate(v)(pts_f, deriv=1),
+            "integrate_angular_coordinates": lambda v: g.integrate_angular_coordinates(v),
+        }
+        for oname, op in ops.items():
+            with warnings.catch_warnings():
+                warnings.simplefilter("ignore")
+                try:
+                    want = np.asarray(op(vf.copy()), dtype=float)
+                except Exception as exc:
+                    ctx.violation(f"dtype-forms:{oname}:float-raised:{type(exc).__name__}", f"{oname} with float values: {exc}", {"route": "dtype-forms"})
+                    continue
+                for fname, v in forms.items():
+                    ctx.count(section="dtype-forms")
+                    case = {"route": "dtype-forms", "op": oname, "form": fname, "rgrid": rname}
+                    keep = np.array(v, copy=True)
+                    try:
+                        got = np.asarray(op(v), dtype=float)
+                    except Exception as exc:
+                        ctx.violation(f"dtype-forms:{oname}:{fname}:raised:{type(exc).__name__}", f"{oname} with {fname} function values raised "
+                                      f"{type(exc).__name__}: {exc}; the float64 copy is accepted", case)
+                        continue
+                    ctx.nontrivial(("dtype-forms", rname, oname, fname), section="dtype-forms")
+                    sc = np.max(np.abs(want)) + 1e-300
+                    if got.shape != want.shape or _gt(np.max(np.abs(got - want)), 1e-12 * sc):
+                        ctx.violation(f"dtype-forms:{oname}:{fname}:differs-from-float-copy", f"{oname} with {fname} function values differs from the "
+                                      f"float64 copy by {np.max(np.abs(got - want)) if got.shape == want.shape else 'shape'}", case)
+                    if not np.array_equal(keep, v):
+                        ctx.violation(f"dtype-forms:{oname}:{fname}:values-modified", f"{oname} modified the caller's {fname} values", case)
+        # evaluation points in an integer dtype
+        with warnings.catch_warnings():
+            warnings.simplefilter("ignore")
+            for deriv in (0, 1):
+                ctx.count(section="dtype-forms")
+                case = {"route": "dtype-forms", "op": "interpolate", "form": "integer-points", "deriv": deriv, "rgrid": rname}
+                try:
+                    f = g.interpolate(vf.copy())
+                    a, b = np.asarray(f(pts_i, deriv=deriv), dtype=float), np.asarray(f(pts_f, deriv=deriv), dtype=float)
+                except Exception as exc:
+                    ctx.violation(f"dtype-forms:interpolate:integer-points:raised:{type(exc).__name__}", f"interpolant at integer-dtype points: {exc}", case)
+                    continue
+                ctx.nontrivial(("dtype-forms", rname, "integer-points", deriv), section="dtype-forms")
+                if a.shape != b.shape or _gt(np.max(np.abs(a - b)), 1e-12 * (np.max(np.abs(b)) + 1e-300)):
+                    ctx.violation("dtype-forms:interpolate:integer-points:differs-from-float-points", f"interpolant (deriv={deriv}) at integer-dtype points "
+                                  f"differs from the same points in floats: {a} vs {b}", case)
+
+
 def run(ctx):
     THOROUGH[0] = bool(ctx.thorough)
     jobs = []
@@ -446,6 +512,7 @@ def run(ctx):
             res["samples"] = []
         ctx.merge(res)
     ctx.guarded("molecular", molecular, ctx)
+    ctx.guarded("dtype-forms", dtype_forms, ctx)
     stats = []
     for rname, method in (("linear-cc9-r0", "lebedev"), ("becke-gc12", "maxdet")):
         stats.append(explore.explore(ctx, "vf.props.c09:World", 3, params={"rname": rname, "method": method}, twice_every=5,
@@ -461,5 +528,7 @@ def replay(ctx, case):
         ctx.merge(_grid_case((case["rgrid"], case["method"], case["mixed"], case["centre"], case["rotate"], ctx.seed)))
     elif case.get("route") == "molecular":
         molecular(ctx)
+    elif case.get("route") == "dtype-forms":
+        dtype_forms(ctx)
     else:
         explore.replay_history(ctx, case)
